@@ -86,49 +86,48 @@ class TCPTransport(KNXIPTransport):
         if self._buffer:
             raw = self._buffer + raw
             self._buffer = b""
-        if not raw:
-            return
-        try:
-            knxipframe, next_frame_part = KNXIPFrame.from_knx(raw)
-        except IncompleteKNXIPFrame:
-            self._buffer = raw
-            raw_socket_logger.debug(
-                "Incomplete KNX/IP frame. Waiting for rest: %s", raw.hex()
-            )
-            return
-        except CouldNotParseKNXIP as couldnotparseknxip:
-            # skip the malformed frame by the total length its header announces
-            total_length = KNXIPHeader.HEADERLENGTH
-            if len(raw) >= KNXIPHeader.HEADERLENGTH:
-                total_length = int.from_bytes(raw[4:6], "big")
-            skippable = (
-                raw[0] == KNXIPHeader.HEADERLENGTH
-                and total_length >= KNXIPHeader.HEADERLENGTH
-            )
-            if skippable and len(raw) < total_length:
-                # rest of the malformed frame was not received yet
+        # one chunk of data may contain many KNX/IP frames
+        while raw:
+            try:
+                knxipframe, next_frame_part = KNXIPFrame.from_knx(raw)
+            except IncompleteKNXIPFrame:
                 self._buffer = raw
+                raw_socket_logger.debug(
+                    "Incomplete KNX/IP frame. Waiting for rest: %s", raw.hex()
+                )
                 return
-            knx_logger.debug(
-                "Unsupported KNXIPFrame from %s: %s in %s",
-                self.remote_hpai,
-                couldnotparseknxip.description,
-                raw.hex(),
-            )
-            if not skippable:
-                # no usable length information - can not find the next frame
-                return
-            next_frame_part = raw[total_length:]
-        else:
-            knx_logger.debug(
-                "Received from %s: %s",
-                self.remote_hpai,
-                knxipframe,
-            )
-            self.handle_knxipframe(knxipframe, self.remote_hpai)
-        # parse data after current KNX/IP frame
-        if next_frame_part:
-            self.data_received_callback(next_frame_part)
+            except CouldNotParseKNXIP as couldnotparseknxip:
+                # skip the malformed frame by the total length its header announces
+                total_length = KNXIPHeader.HEADERLENGTH
+                if len(raw) >= KNXIPHeader.HEADERLENGTH:
+                    total_length = int.from_bytes(raw[4:6], "big")
+                skippable = (
+                    raw[0] == KNXIPHeader.HEADERLENGTH
+                    and total_length >= KNXIPHeader.HEADERLENGTH
+                )
+                if skippable and len(raw) < total_length:
+                    # rest of the malformed frame was not received yet
+                    self._buffer = raw
+                    return
+                knx_logger.debug(
+                    "Unsupported KNXIPFrame from %s: %s in %s",
+                    self.remote_hpai,
+                    couldnotparseknxip.description,
+                    raw.hex(),
+                )
+                if not skippable:
+                    # no usable length information - can not find the next frame
+                    return
+                next_frame_part = raw[total_length:]
+            else:
+                knx_logger.debug(
+                    "Received from %s: %s",
+                    self.remote_hpai,
+                    knxipframe,
+                )
+                self.handle_knxipframe(knxipframe, self.remote_hpai)
+            # parse data after current KNX/IP frame
+            raw = next_frame_part
 
     async def connect(self) -> None:
         """Connect TCP socket."""
